@@ -62,7 +62,7 @@ func init() {
 
 func genC26(seed int64, tier string, emit func(run.Case)) {
 	r := gen.New(seed)
-	n := tierN(tier, 110, 5000)
+	n := tierN(tier, 70, 5000)
 	for i := 0; i < n; i++ {
 		q := r.Sub(i)
 		o := gen.DiagramOpts{MinObjects: 2, MaxObjects: 10, MaxDepth: 3, Latex: -1, Special: .3, Styles: .3, EdgeStyles: .3, Arrowheads: .3,
@@ -395,7 +395,7 @@ func c26ExecPlugin() (d2plugin.Plugin, error) {
 	defer c26PluginMu.Unlock()
 	// d2 gives `<plugin> info` 10 s; on a starved machine that can expire, so discovery is
 	// retried (a wall-clock effect must never decide anything).
-	for try := 0; try < 20 && c26Plugin == nil; try++ {
+	for try := 0; try < 60 && c26Plugin == nil; try++ {
 		c26PluginErr = nil
 		c26FindPlugin()
 	}
